@@ -14,6 +14,64 @@ CLAIMED = {
         "(all 132,000 time-shaped strings, duration/date/plus/range grids) plus a property oracle written from the specification.",
    design="§4 C16", technique="Coq proof (lia + lifted finite sweep) over hand model; extracted-model-vs-Go differential correspondence",
    note=TB + "Axioms: none (Closed under the global context). Known findings K5, K6 (int64 overflow panics) are printed, not suppressed beyond their exact inputs."),
+ "C14": dict(
+   text="Theorems in coq/Properties/C14.v over the executable model of klog's tag handling (coq/Model/Tags.v): the hand-written matcher equal to Go's "
+        "leftmost-first FindAll of HashTagPattern finds, on every rune list without a line feed, exactly and uniquely the tags of a declarative definition "
+        "transcribed from Specification.md (proved for any notion of letter under which the quotes are not letters, instantiated at the Go toolchain's "
+        "generated unicode.L / unicode.ToLower tables); Summary.Tags() on bytes (UTF-8 decoding with invalid bytes, second regexp run, strings.Trim, "
+        "NewTagOrPanic) never panics and denotes those tags; tag equality = lower-cased names + literal values; Contains = name match with bare-name rule; "
+        "Merge is iteration-order independent; AggregateTotalsByTags reports for every key the sum and count of the entries carrying it, each once, sorted, "
+        "and returns whenever the durations fit int64. Tied to the code by an exhaustive correspondence (all strings of <= 4 / <= 6 symbols over a 14-symbol "
+        "alphabet through Summary.Tags()) plus random summaries, queries and record sets, with an independent Python oracle written from the specification.",
+   design="§4 C14", technique="Coq proof (structural induction; UTF-8 decode/encode lemmas; table facts by vm_compute over the generated tables) over hand model; "
+                             "extracted-model-vs-Go differential correspondence, exhaustive over a small alphabet",
+   note=TB + "Axioms: none (Closed under the global context, 16 theorems incl. C14_find_tags_all_texts_refuted, the witness that the single-line hypothesis is needed; also: NewTagFromString never panics, reported keys are pairwise distinct so the output order is determined whatever the Go map iteration order). The Unicode tables are regenerated from the Go toolchain on every build "
+             "(harness/gentables, self-checked against unicode.Is/unicode.ToLower/regexp/strings.ToLower). Theorem 1 is stated for single lines (no LF): Go's "
+             "[^\"]* would let a quoted value span a line feed, which no summary line can contain. Known finding K14 (int64 overflow of a tag total panics) "
+             "is printed, not suppressed beyond its exact inputs."),
+ "C19": dict(
+   text="Theorems in coq/Properties/C19.v over the executable model of klog's bookmark database (coq/Model/Bookmarks.v on top of the model of Go's "
+        "encoding/json in coq/Model/Json.v): every valid-UTF-8 string survives encoder (HTML escaping off) + decoder (unbounded, induction over the rune "
+        "list, with decode/encode of UTF-8 proved both ways); every JSON value with valid-UTF-8 strings printed compact, indented or as json.Encoder writes "
+        "it parses back to itself; a well-formed map written by ToJson is read back by NewBookmarksCollectionFromJson to exactly that map (empty map = empty "
+        "file); for EVERY finite history of set/unset/clear/list/info/resolve commands the file-level run (read file, act, write file, per command) and the "
+        "specification on a plain sorted map give step by step the same exit code and output, a well-formed map and a file that reads back to that map; set "
+        "changes exactly one name, unset of an unknown name fails and leaves the file untouched, the listing is strictly ascending by name, nothing panics. "
+        "filepath.Abs, the file system and filepath.Dir/Base are parameters of the theorems (hypotheses: Abs is absolute, idempotent, keeps valid UTF-8). Tied "
+        "to the code by correspondence suites: 1-40 real klog command lines per history through klog.Run on a scratch config folder (fresh Run per command), "
+        "the JSON string codec / parser / printer against encoding/json, ToJson/FromJson against app.*, the path functions against path/filepath; independent "
+        "Python oracles (plain dict simulation of the property text, Python's json module reading the database file, posixpath).",
+   design="§4 C19", technique="Coq proof (induction over rune lists, JSON values and command histories; lia for the UTF-8 bit arithmetic) over hand model; "
+                             "extracted-model-vs-Go differential correspondence through klog.Run; oracle-only suite on the raw database file",
+   note=TB + "Axioms: none (Closed under the global context, 18 theorems). Operating-system behaviour (filepath.Abs/Clean, file existence) is NOT modelled "
+             "inside the theorems: it is a universally quantified parameter with three stated hypotheses, which the suite 'paths' checks on the real "
+             "filepath functions; the executable model instantiates it with a lexical Unix Clean/Join/Abs that the same suite compares with Go's. "
+             "The scanner's 10,000-level nesting limit of encoding/json is not modelled. Argument strings pass through kong's JSON transcoding (modelled: "
+             "invalid UTF-8 becomes U+FFFD before klog sees it); histories with malformed UTF-8 are compared with the model but lie outside the property's "
+             "quantifier and the oracle."),
+ "C18": dict(
+   text="Theorems in coq/Properties/C18.v over the executable model of klog's terminal formatting (coq/Model/Styler.v: StyleProps, seqs, Format, "
+        "FormatAndRestore over an arbitrary theme record with the four themes of colour_theme.go as instances, StripAllAnsiSequences as a hand-written "
+        "leftmost non-overlapping matcher of \\x1b\\[[\\d;]+m, document trees; coq/Model/Table.v: NewTable/Cell/Skip/Fill/Collect; coq/Model/TextSer.v: the "
+        "whole output of `klog print` as a document tree): for EVERY theme whose emitted units are concatenations of complete SGR sequences, everything "
+        "seqs emits is stripped to nothing; strip(render theme doc) = strip(render no_colour doc) for every document tree in which no SGR-shaped byte "
+        "sequence straddles a style boundary of the unstyled text -- and that hypothesis is proved to be exactly the weakest (iff, decided by a boolean "
+        "checker; refuted without it); the output of `klog print` satisfies it for every list of records with ARBITRARY summary bytes (tags start with "
+        "'#', values are ESC-free); strip distributes over concatenation unless a sequence straddles the seam; strip is not idempotent (witness) but is "
+        "on ESC-free residues; a table built from tidy cells (any theme's styling, valid UTF-8, one-character fills) with a full last row never panics "
+        "and every printed row shows sum of column widths + (columns-1)*|separator| runes after stripping, the widths being identical under any two "
+        "themes; ragged tables and wide fills are the stated counter-examples. Tied to the code by correspondence suites (all schemes x all 484 prop "
+        "combinations, exhaustive strip over a 6-symbol alphabet up to length 5/7, random document trees and tables, `klog print` run end to end against "
+        "the document-tree model) and an oracle-only end-to-end suite: generated valid klog files x {print, print --with-totals, total, report, tags, "
+        "today} with flags x {dark, light, basic, no_colour, --no-style, NO_COLOR}, stripped stdout identical and table rows of equal visible width.",
+   design="§4 C18", technique="Coq proof (structural / length induction over byte lists, token lists and document trees; boolean reflection for the decidable "
+                             "side conditions) over hand model; extracted-model-vs-Go differential correspondence; end-to-end metamorphic oracle over "
+                             "colour-scheme variants",
+   note=TB + "Axioms: none (Closed under the global context, 18 theorems; 4 are stated *_refuted witnesses, 2 are *_partial: idempotence of strip only "
+             "on ESC-free residues; the boundary-safety argument is carried out in Coq for `print` only, the other five commands are covered by the "
+             "end-to-end suite). Visible width = rune count after stripping, as the property says; terminal cell width of wide characters is out of "
+             "scope. Known finding K18 (StripAllAnsiSequences does not recognise the parameterless SGR sequence ESC[m, so `klog tags --values` misaligns "
+             "a row whose quoted tag value contains it) is printed, not suppressed beyond inputs whose only discrepancy is that sequence."),
 }
 
 NOT_YET = {}
